@@ -149,11 +149,66 @@ func VerifReprocess(prog *ProgramAnalysisState) []string {
 			}
 			before := s.blockEnd[b]
 			if s.ProcessBlock(b) && VerifLabelSig(before) != VerifLabelSig(s.blockEnd[b]) {
-				changed = append(changed, fmt.Sprintf("%s block %d", f.String(), b.Index))
+				changed = append(changed, fmt.Sprintf("%s block %d: %s", f.String(), b.Index, verifDiffClass(before, s.blockEnd[b])))
 			}
 		}
 	}
 	return changed
+}
+
+// verifDiffClass names how the re-processed graph differs from the stored one at the level of labels.
+func verifDiffClass(before, after *EscapeGraph) string {
+	type edge struct {
+		src, dst string
+		dstKind  nodeKind
+	}
+	nodes := func(g *EscapeGraph) map[string]bool {
+		m := map[string]bool{}
+		for n, st := range g.status {
+			m[fmt.Sprintf("%d|%s|%d", int(n.kind), n.debugInfo, int(st))] = true
+		}
+		return m
+	}
+	edges := func(g *EscapeGraph) map[edge]edgeFlags {
+		m := map[edge]edgeFlags{}
+		for src, outs := range g.edges {
+			for dst, mk := range outs {
+				m[edge{src.debugInfo, dst.debugInfo, dst.kind}] |= mk
+			}
+		}
+		return m
+	}
+	nb, na := nodes(before), nodes(after)
+	for k := range nb {
+		if !na[k] {
+			return "nodes or statuses differ"
+		}
+	}
+	for k := range na {
+		if !nb[k] {
+			return "nodes or statuses differ"
+		}
+	}
+	eb, ea := edges(before), edges(after)
+	for k, m := range eb {
+		if ea[k]&m != m {
+			return "edges are lost"
+		}
+	}
+	onlyExternalToLoads := true
+	for k, m := range ea {
+		extra := m &^ eb[k]
+		if extra == 0 {
+			continue
+		}
+		if extra != EdgeExternal || k.dstKind != KindLoad {
+			onlyExternalToLoads = false
+		}
+	}
+	if onlyExternalToLoads {
+		return "only external edges to load nodes are added"
+	}
+	return "internal or subnode edges are added"
 }
 
 // VerifBlockInput rebuilds the graph on entry of block b of f (merge of the predecessors' end graphs).
